@@ -33,3 +33,33 @@
   (concl (>= (prod a off n) 1))
   (pattern (prod a off n))
   (trigger prod))
+
+; a product of ones is one
+(lemma prod_ones
+  (vars (a (Array Int Int)) (off Int) (n Int))
+  (induct n)
+  (hyp (forall ((k Int)) (=> (and (<= 0 k) (< k n)) (= (select a (+ off k)) 1))))
+  (concl (= (prod a off n) 1))
+  (pattern (prod a off n))
+  (trigger prod))
+
+; a shape prefixed by ones has the same product (AddExtraDimsToTensor): a[offa .. offa+n) is
+; (n-r) ones followed by b[offb .. offb+r)
+(lemma prod_prepend_ones
+  (vars (a (Array Int Int)) (offa Int) (n Int) (b (Array Int Int)) (offb Int) (r Int))
+  (induct r (also n))
+  (hyp (and (>= r 0) (>= n r)
+            (forall ((k Int)) (=> (and (<= 0 k) (< k (- n r))) (= (select a (+ offa k)) 1)))
+            (forall ((k Int)) (=> (and (<= 0 k) (< k r)) (= (select a (+ offa (- n r) k)) (select b (+ offb k)))))))
+  (concl (= (prod a offa n) (prod b offb r)))
+  (pattern (prod a offa n) (prod b offb r))
+  (trigger prod))
+
+; splitting a product: prod(a, off, n) * prod(a, off+n, m) = prod(a, off, n+m)
+(lemma prod_split
+  (vars (a (Array Int Int)) (offa Int) (n Int) (b (Array Int Int)) (offb Int) (m Int))
+  (induct m)
+  (hyp (and (= a b) (= offb (+ offa n)) (>= n 0) (>= m 0)))
+  (concl (= (prod a offa (+ n m)) (* (prod a offa n) (prod b offb m))))
+  (pattern (prod a offa n) (prod b offb m))
+  (trigger prod))
